@@ -299,8 +299,8 @@ Lemma dispatch_conventional c :
   read_flavour (Some c) (conventional_ext c) = ROk (write_flavour c (conventional_ext c)).
 Proof. destruct c; split; reflexivity. Qed.
 
-Lemma dispatch_explicit_false_infers e :
-  read_flavour (Some false) e = read_flavour None e.
+(* an explicit compress argument (True or False) is honoured whatever the extension *)
+Lemma dispatch_explicit_honoured c e : read_flavour (Some c) e = ROk (write_flavour c e).
 Proof. reflexivity. Qed.
 
 Lemma dispatch_unknown_ext : read_flavour None ExtOther = RErr EValue.
